@@ -40,6 +40,7 @@ fn check_limits(
     base_plus_exec: u64,
     base: u64,
     full: &chia_consensus::owned_conditions::OwnedSpendBundleConditions,
+    cuts: &[u64],
     run: &dyn Fn(u64) -> Outcome,
     witness: &dyn Fn() -> Value,
 ) {
@@ -74,6 +75,19 @@ fn check_limits(
     if base > 0 {
         smaller.push(base - 1);
     }
+    // partial sums of the cost components (where an implementation's remaining budget is exactly
+    // zero between two charges), a sample of them and their lower neighbours
+    let mut cs: Vec<u64> = cuts.iter().copied().filter(|c| *c < total).collect();
+    cs.sort_unstable();
+    cs.dedup();
+    rng.shuffle(&mut cs);
+    for c in cs.into_iter().take(10) {
+        rep.count("limit:partial-sum-cut");
+        smaller.push(c);
+        if c > 0 && rng.chance(1, 3) {
+            smaller.push(c - 1);
+        }
+    }
     smaller.sort_unstable();
     smaller.dedup();
     for l in smaller {
@@ -95,6 +109,24 @@ fn check_limits(
             ),
         }
     }
+}
+
+/// partial sums `start + c_0 + c_1 + ...` over the per-spend components, in listed and in reverse
+/// spend order (each spend contributes its execution cost, then its condition cost)
+fn partial_sums(start: u64, exec: &[u64], cond: &[u64]) -> Vec<u64> {
+    let mut v = vec![start];
+    let n = exec.len().max(cond.len());
+    for rev in [false, true] {
+        let mut run = start;
+        for k in 0..n {
+            let i = if rev { n - 1 - k } else { k };
+            run = run.saturating_add(exec.get(i).copied().unwrap_or(0));
+            v.push(run);
+            run = run.saturating_add(cond.get(i).copied().unwrap_or(0));
+            v.push(run);
+        }
+    }
+    v
 }
 
 fn case(ctx: &Ctx, rng: &mut Rng, rep: &mut Report, params: &vcore::bundlegen::GenParams) {
@@ -189,7 +221,9 @@ fn case(ctx: &Ctx, rng: &mut Rng, rep: &mut Report, params: &vcore::bundlegen::G
                             rep.violation(&format!("c04-cost:per-spend-execution:{entry}"), &format!("spend {i}: execution_cost {} vs interpreter {}", s.execution_cost, puzzle_exec[i]), witness());
                         }
                     }
-                    check_limits(rep, rng, entry, o.cost, base + exec, base, &o, &|l| rbg2(ctx, &program, &[], l, f, &sig, None), &witness);
+                    let cond: Vec<u64> = model.spends.iter().map(|m| m.condition_cost).collect();
+                    let cuts = partial_sums(base + gen_exec, &puzzle_exec, &cond);
+                    check_limits(rep, rng, entry, o.cost, base + exec, base, &o, &cuts, &|l| rbg2(ctx, &program, &[], l, f, &sig, None), &witness);
                     if rep.want_sample() {
                         rep.sample(json!({"case": witness(), "cost": o.cost, "base": base, "execution": exec, "conditions": model.condition_cost}));
                     }
@@ -227,7 +261,9 @@ fn case(ctx: &Ctx, rng: &mut Rng, rep: &mut Report, params: &vcore::bundlegen::G
                     if o.cost != want {
                         rep.violation(&format!("c04-cost:total:{entry}"), &format!("cost {} != base {base} + execution {exec_sum} + conditions {}", o.cost, mm.condition_cost), witness());
                     }
-                    check_limits(rep, rng, entry, o.cost, base + exec_sum, base, &o, &|l| run_sb(ctx, &sb, l, f).map(|x| x.0), &witness);
+                    let cond: Vec<u64> = mm.spends.iter().map(|m| m.condition_cost).collect();
+                    let cuts = partial_sums(base, &puzzle_exec, &cond);
+                    check_limits(rep, rng, entry, o.cost, base + exec_sum, base, &o, &cuts, &|l| run_sb(ctx, &sb, l, f).map(|x| x.0), &witness);
                 }
             }
         }
@@ -249,7 +285,9 @@ fn case(ctx: &Ctx, rng: &mut Rng, rep: &mut Report, params: &vcore::bundlegen::G
                     if o.cost != base + o.execution_cost + o.condition_cost {
                         rep.violation(&format!("c04-cost:total:{entry}"), &format!("cost {} != byte cost {base} + execution {} + conditions {}", o.cost, o.execution_cost, o.condition_cost), witness());
                     }
-                    check_limits(rep, rng, entry, o.cost, base + o.execution_cost, base, &o, &|l| rbg1(ctx, &program, &[], l, flags, &sig, None), &witness);
+                    let cond: Vec<u64> = model.spends.iter().map(|m| m.condition_cost).collect();
+                    let cuts = partial_sums(base + o.execution_cost, &[], &cond);
+                    check_limits(rep, rng, entry, o.cost, base + o.execution_cost, base, &o, &cuts, &|l| rbg1(ctx, &program, &[], l, flags, &sig, None), &witness);
                 }
             }
         }
@@ -270,6 +308,7 @@ fn case(ctx: &Ctx, rng: &mut Rng, rep: &mut Report, params: &vcore::bundlegen::G
                 0,
                 0,
                 &o,
+                &partial_sums(0, &[], &o.spends.iter().map(|s| s.condition_cost).collect::<Vec<u64>>()),
                 &|l| {
                     let mut rr = r2.clone();
                     crate::c01::run_parse_spends(ctx, &outc, Repr::Plain, &mut rr, l, mfc, MVisitor::Empty, &Signature::default())
